@@ -1,8 +1,149 @@
-import MpVerif.C03.ModelSpec
+import MpVerif.C03.LemmasMain
+/-!
+# C03 — NL writer output is read back as the same model (text = binary)
+
+Property theorems only.  Model: `ModelWrite.lean` (`NLWriter2::WriteNL`, nl-writer2.hpp/.cc), `ModelRead.lean`
+(`TextReader::ReadHeader`, `NLReader::Read`, nl-reader.h / nl-reader.cc), `ModelSpec.lean` (what a fed model means,
+the feeder contract `wellFormed`).  The opcode tables in `MpVerif/Gen/OpcodesW.lean` are regenerated from
+nl-opcodes.h, src/expr-info.cc and common.h on every run.
+
+Full-strength statement of the property (NOT provable for the code as it is — see the counterexamples below):
+
+    theorem C03_roundtrip_full (cd : Codec) (hcd : ∀ x, (cd.rd x).normZero = x.normZero) (m : Model) (o : Opts)
+        (hwf : feeder contract) : readTokens cd (writeNL m o) = .ok (intended m o)   -- every item, every number as fed
+
+What is proved instead: `C03_roundtrip` — the reader returns exactly `events cd m o`, a function of the fed model
+that differs from "as fed" in four places only (a bound equal to ∓DBL_MAX is returned as ∓∞; `ampl_vbtol` goes
+through `cd.vb` = `%.g`; a text header with `flags = 0 ∧ arith_kind = 0` reads back the constructor defaults;
+an `int` suffix value INT_MIN cannot be written in text format, excluded by `wellFormed`), each with a proved
+counterexample and a `…_partial` theorem for its complement.
+-/
 namespace MpVerif.C03
 open MpVerif.Gen.OpcodesW
 
+/-! ## opcode tables (writer nl-opcodes.h, reader src/expr-info.cc, NL grammar) -/
+
+/-- every writer constant `mp::nl::NAME = {code, …}` is decoded by the reader as `expr::NAME`, with the argument
+    shape the NL grammar gives that operator; the reader's inverse table maps it back; `decide` over the whole table -/
 theorem C03_opcode_tables_agree : tablesAgree = true := by decide
+
+/-- every opcode the reader decodes to an operator is one the writer can emit -/
 theorem C03_reader_opcodes_covered : readerCovered = true := by decide
+
+/-- what the round trip uses, per opcode, derived from the generated tables -/
+theorem C03_opcode_facts {oc k : Nat} {cls : OpClass} (h : writerInfo oc = some (k, cls)) : OpOK oc k cls :=
+  opOK_of_writerInfo h
+
+/-! ## expressions: every opcode, every arity, every nesting -/
+
+/-- an expression fed through `ExprWriter` (any tree over `NPut`/`VPut`/`StrPut`/`FuncPut`/`OPut1/2/3/N` that obeys the
+    NL grammar), written in text or binary and followed by anything, is read back by `ReadNumericExpr` /
+    `ReadLogicalExpr` / `ReadSymbolicExpr` as exactly the handler tree it stands for, consuming exactly its tokens.
+    Induction over the expression tree (mutual with argument lists). -/
+theorem C03_expr_roundtrip (c : RCtx) (o : Opts) (e : Expr) (md : Mode) (f : Nat) (rest : List Tok)
+    (hwf : wfE ⟨c.nve, c.nf⟩ md e = true) (hf : esize e ≤ f) :
+    readE c f md (wE o e ++ rest) = .ok (hE c.cd o c.nv md e, rest) :=
+  readE_wE c o e md f rest hwf hf
+
+/-! ## header -/
+
+/-- `ReadHeader (WriteNLHeader h)` rebuilds `readBackHdr h` (all ten lines, optional fields included) -/
+theorem C03_header_roundtrip (cd : Codec) (o : Opts) (h : Hdr) (rest : List Tok) (hok : hdrOk h = true) :
+    readHeader cd (wHeader h o ++ rest) = .ok (readBackHdr cd h o, rest) :=
+  readHeader_wHeader cd o h rest hok
+
+/-! ## the whole file -/
+
+/-- **Round trip.**  For every model satisfying the feeder contract, every writer option (text/binary, comments,
+    bounds first/last, column sizes none/cumulative/plain) and every number codec, the reader's notifications for the
+    written file are exactly `events cd m o`. -/
+theorem C03_roundtrip (cd : Codec) (m : Model) (o : Opts) (hwf : wellFormed m o = true) :
+    readTokens cd (writeNL m o) = .ok (events cd m o) :=
+  roundtrip cd m o hwf
+
+/-! ## where `events` is not "as fed": partial theorems and counterexamples -/
+
+/-- bounds: unless the lower bound is exactly -DBL_MAX / the upper bound exactly +DBL_MAX, a bound line comes back as the
+    pair that was fed (through the number codec; `L == U` pairs come back as `(L, L)`) -/
+theorem C03_bounds_partial (cd : Codec) (isCon : Bool) (i : Nat) (L U : Dbl)
+    (hL : L.leNegMax = true → L = Dbl.negInf) (hU : U.geMax = true → U = Dbl.posInf)
+    (hinf : cd.rd Dbl.negInf = Dbl.negInf ∧ cd.rd Dbl.posInf = Dbl.posInf) :
+    evBnd cd isCon i L U 0 0 =
+      (if isCon then Ev.cb i (cd.rd L) (cd.rd (if L.ieeeEq U then L else U))
+       else Ev.vb i (cd.rd L) (cd.rd (if L.ieeeEq U then L else U))) := by
+  unfold evBnd
+  by_cases h1 : L.leNegMax = true
+  · have := hL h1; subst this
+    by_cases h2 : U.geMax = true
+    · have := hU h2; subst this
+      cases isCon <;> simp [Dbl.leNegMax, Dbl.geMax, Dbl.negInf, Dbl.posInf, Dbl.ieeeEq, Dbl.isNaN, Dbl.isZero] at * <;> simp_all [Dbl.negInf, Dbl.posInf]
+    · cases isCon <;> simp_all [Dbl.negInf, Dbl.ieeeEq, Dbl.isNaN, Dbl.isZero, Dbl.leNegMax] <;>
+        (intro hc; rw [← hc] at h2; simp [Dbl.geMax] at h2)
+  · by_cases h2 : U.geMax = true
+    · have := hU h2; subst this
+      cases isCon <;> simp_all [Dbl.posInf, Dbl.ieeeEq, Dbl.isNaN, Dbl.isZero, Dbl.geMax] <;>
+        (intro hc; rw [hc] at h1; simp [Dbl.leNegMax] at h1)
+    · by_cases h3 : L.ieeeEq U = true
+      · cases isCon <;> simp [h1, h2, h3]
+      · cases isCon <;> simp [h1, h2, h3]
+
+/-- counterexample (found on the real code by the check: `bounds:dblmax-read-as-infinity`): the variable bound
+    `[-DBL_MAX, 1]` is reported as `[-∞, 1]`, with an exact codec -/
+theorem C03_counterexample_dblmax_bound :
+    evBnd idCodec false 0 Dbl.negMaxFinite ⟨false, 1023, 0⟩ 0 0 = Ev.vb 0 Dbl.negInf ⟨false, 1023, 0⟩ ∧
+    Dbl.negInf ≠ Dbl.negMaxFinite := by
+  constructor
+  · simp [evBnd, Dbl.negMaxFinite, Dbl.leNegMax, Dbl.geMax, idCodec]
+  · decide
+
+/-- header: with `flags ≠ 0 ∨ arith_kind ≠ 0` and a one-digit vbtol (`cd.vb x = x`) every header field the reader
+    supports comes back as fed (format and, for text, arith kind are the written ones) -/
+theorem C03_header_partial (cd : Codec) (h : Hdr) (o : Opts) (hf : h.flags ≠ 0 ∨ h.arith ≠ 0)
+    (hvb : cd.vb h.vbtol = h.vbtol) (hn : 2 ≤ h.nopts) (hlen : h.opts.length = 9) (h3 : h.opts[1]? = some (3 : Int)) :
+    (readBackHdr cd h o).flags = h.flags ∧ (readBackHdr cd h o).vbtol = h.vbtol ∧
+    (readBackHdr cd h o).arith = (if o.binary then h.arith else 0) := by
+  have h1 : (h.opts.take h.nopts ++ hdr0.opts.drop (h.opts.take h.nopts).length)[1]? = some (3 : Int) := by
+    have : 1 < (h.opts.take h.nopts).length := by simp [List.length_take]; omega
+    rw [List.getElem?_append_left this]
+    simp [List.getElem?_take, h3]; omega
+  refine ⟨by simp [readBackHdr, hf], ?_, by simp [readBackHdr, hf]⟩
+  show (if _ ∧ _ then cd.vb h.vbtol else Dbl.zero) = h.vbtol
+  rw [if_pos ⟨h1, h3⟩]; exact hvb
+
+/-- counterexample (`hdr:flags-default-when-arith-unknown`): a text header with `flags = 0`, `arith_kind = 0`
+    (the documented arith kind for text) is reported with `flags = 1` -/
+theorem C03_counterexample_flags_default (cd : Codec) :
+    (readBackHdr cd { flags := 0, arith := 0 } { binary := false }).flags = 1 := by
+  simp [readBackHdr, hdr0]
+
+/-- counterexample (`hdr:vbtol-one-digit`, DESIGN A10): whenever `%.g` does not reproduce vbtol, the header does not -/
+theorem C03_counterexample_vbtol (cd : Codec) (x : Dbl) (hx : cd.vb x ≠ x) :
+    (readBackHdr cd { opts := [1, 3, 0, 0, 0, 0, 0, 0, 0], vbtol := x } {}).vbtol ≠ x := by
+  simpa [readBackHdr, hdr0] using hx
+
+/-- counterexample (`suffix:int-min-text`): in text format the token written for an int suffix value INT_MIN is not an
+    integer, and `ReadInt` rejects it; in binary it is the integer -/
+theorem C03_counterexample_int_min_text :
+    (∀ ts, readInt (wIntTok { binary := false } (-2147483648) :: ts) = .error .expectedInt) ∧
+    (∀ ts, readInt (wIntTok { binary := true } (-2147483648) :: ts) = .ok (-2147483648, ts)) := by
+  constructor <;> intro ts <;> simp [wIntTok, readInt]
+
+/-! ## non-vacuity: the contract is satisfiable and the theorem computes -/
+
+def exModel : Model :=
+  { hdr := { nv := 2, nac := 1, no := 1, nlc := 1, nf := 1, ceb := 1, flags := 1, arith := 1 }
+    funcs := [⟨"f", 2, 0⟩]
+    sufs := [⟨"priority", 0, .ints [(1, 7)]⟩, ⟨"ref", 4, .dbls [(0, ⟨false, 1023, 0⟩)]⟩]
+    vb := [(Dbl.negInf, Dbl.posInf), (Dbl.zero, ⟨false, 1024, 0⟩)]
+    cb := [⟨Dbl.zero, Dbl.zero, 0, 0⟩]
+    x0 := some [(0, ⟨false, 1023, 0⟩)]
+    dv0 := [⟨2, "t", [(0, ⟨false, 1023, 0⟩)], .op1 15 "abs" (.var 1 "y")⟩]
+    cons := [([], ⟨"c", [(0, ⟨false, 1023, 0⟩)], .op2 0 "+" (.var 2 "t") (.call 0 "f" [.num ⟨true, 1022, 0⟩, .str "a b"])⟩)]
+    lcons := [([], ⟨"l", [], .opN 70 "forall" [.op2 23 "<=" (.var 0 "x") (.num Dbl.zero), .num ⟨false, 1023, 0⟩, .op1 34 "!" (.num Dbl.zero)]⟩)]
+    objs := [([], ⟨1, "o", [(1, ⟨false, 1024, 0⟩)], .opN 64 "pl" [.num ⟨false, 1023, 0⟩, .num Dbl.zero, .num ⟨false, 1024, 0⟩, .var 0 "x"]⟩)]
+    colsz := [1] }
+
+example : wellFormed exModel {} = true := by decide
+example : wellFormed exModel { binary := true, comments := true, boundsFirst := false, colSizes := 2 } = true := by decide
 
 end MpVerif.C03
